@@ -596,3 +596,13 @@ Definition dv_canonical (v : dversion) : bool :=
      | Some r => match r with [] => false | _ :: _ => forallb is_revision_char r end
      | None => true
      end.
+
+(* the domain of C14 for the concrete version model, decidable *)
+Definition relation_okb (r : relation dversion) : bool :=
+  ident_ok (r_name r)
+  && match r_archqual r with Some q => ident_ok q | None => true end
+  && match r_version r with Some (_, v) => dv_canonical v | None => true end
+  && match r_archs r with Some a => forallb arch_ok a | None => true end
+  && forallb (forallb profile_ok) (r_profiles r).
+Definition relations_okb (rs : list (list (relation dversion))) : bool :=
+  forallb (fun e => match e with [] => false | _ :: _ => forallb relation_okb e end) rs.
